@@ -348,6 +348,12 @@ def parse_data_ints(il):
 
 EXTRA_CLI = [
     # (source, expected list of (name, value)) hand-written disambiguation cases
+    # `struct S;` / `union U;` alone in an inner scope declares a new type that hides the outer one (6.7.2.3p7)
+    ('struct S { int a; }; union U { char c; short s; };\n'
+     'void f(void) { struct S; struct S *p; union U; union U *q; struct S { long x, y; }; union U { long double d; };\n'
+     '  static int chk_a = sizeof(*p); static int chk_b = _Generic(p, struct S *: 1, default: 2); static int chk_c = sizeof(*q); static int chk_d = _Alignof(union U); }\n'
+     'static int chk_e = sizeof(struct S); static int chk_f = sizeof(union U);\n',
+     [('chk_a', 16), ('chk_b', 1), ('chk_c', 16), ('chk_d', 16), ('chk_e', 4), ('chk_f', 2)]),
     # prototype scopes nested in a parameter list, a struct member or a type name: later parameters see earlier ones
     ('double m; int n0;\nvoid (*cb)(short m, char (*row)[sizeof m]);\nstruct H { int (*cmp)(int n, int (*a)[n], char (*b)[sizeof n]); long (*get)(char m, char (*r)[sizeof m + 1]); };\nvoid reg(int (*f)(char m, int (*p)[sizeof m]), int k);\nstatic int chk_a = _Generic(cb, void (*)(short, char (*)[2]): 1, void (*)(short, char (*)[8]): 2, default: 0);\nstatic int chk_b = _Generic(((struct H *)0)->get, long (*)(char, char (*)[2]): 1, long (*)(char, char (*)[9]): 2, default: 0);\nstatic int chk_c = _Generic((void (*)(char m, char (*)[sizeof m]))0, void (*)(char, char (*)[1]): 1, void (*)(char, char (*)[8]): 2, default: 0);\nstatic int chk_d = _Generic(reg, void (*)(int (*)(char, int (*)[1]), int): 1, default: 0);\nstatic int chk_g = sizeof m;\n', [('chk_a', 1), ('chk_b', 1), ('chk_c', 1), ('chk_d', 1), ('chk_g', 8)]),
     # a tag redeclared in an inner scope names a different type even when tag, size and alignment agree
